@@ -513,7 +513,8 @@ pub fn check(tier: Tier) -> Outcome {
                     if tier == Tier::Thorough || (i != j && (i + j) % 2 == 1) {
                         cells.push(json!({"srv": s.to_json(), "scripts": pair, "same_file": same, "intruder": "all"}));
                     }
-                    if tier == Tier::Thorough {
+                    // overlapped pairs: adjacent steps of different clients are both on their way before either reply is awaited
+                    if tier == Tier::Thorough || i != j {
                         cells.push(json!({"srv": s.to_json(), "scripts": pair, "same_file": same, "intruder": "none", "overlapped": true}));
                     }
                 }
